@@ -94,12 +94,16 @@ End QIdentity.
 (* ------------------------------------------------------------------ *)
 (* sums over lists of leaves *)
 Lemma qsum_app l1 l2 : (qsum (l1 ++ l2) == qsum l1 + qsum l2)%Q.
-Proof. induction l1 as [|x tl IH]; [cbn; ring|]. cbn [app]. rewrite !qsum_cons, IH. ring. Qed.
+Proof.
+  induction l1 as [|x tl IH]; [cbn [app]; change (qsum []) with 0%Q; ring|].
+  cbn [app]. rewrite !qsum_cons, IH. ring.
+Qed.
 
 Lemma qsum_ge {A} (F : A -> Q) c l : (forall x, In x l -> (c <= F x)%Q) ->
   (c * inject_Z (Z.of_nat (length l)) <= qsum (map F l))%Q.
 Proof.
-  induction l as [|x tl IH]; intros H; [cbn; lra|].
+  induction l as [|x tl IH]; intros H.
+  { cbn [map length]. change (inject_Z (Z.of_nat 0)) with 0%Q. change (qsum []) with 0%Q. lra. }
   cbn [map length]. rewrite qsum_cons, Nat2Z.inj_succ. unfold Z.succ. rewrite inject_Z_plus.
   pose proof (H x (or_introl eq_refl)). pose proof (IH (fun y Hy => H y (or_intror Hy))).
   change (inject_Z 1) with 1%Q. lra.
@@ -208,3 +212,396 @@ Section Shape.
   Proof. intros Hx Hy. rewrite (d_sym x y (inD x Hx) (inU y Hy) (fun E => UD_neq y x Hy Hx (eq_sym E))). apply d_UD; assumption. Qed.
   Lemma d_DC x y : In x (leaves D) -> In y (leaves C) -> (d x y == f + dl + dep C y + dep D x)%Q.
   Proof. intros Hx Hy. rewrite (d_sym x y (inD x Hx) (inC y Hy) (fun E => CD_neq y x Hy Hx (eq_sym E))). apply d_CD; assumption. Qed.
+
+  Lemma sum_regions (F : nat -> Q) :
+    (qsum (map F (seq 0 n))
+     == qsum (map F (leaves U)) + qsum (map F (leaves C)) + qsum (map F (leaves D)))%Q.
+  Proof.
+    rewrite (qsum_perm _ _ (Permutation_map F (Permutation_sym Hn))).
+    unfold S. cbn [leaves]. rewrite !map_app, !qsum_app. ring.
+  Qed.
+
+  Lemma Tsum_diff a b p q :
+    (Tsum d n p q - Tsum d n a b
+     == 2 * d p q - 2 * d a b + qsum (map (fun k => gp d p q k - gp d a b k) (seq 0 n)))%Q.
+  Proof. unfold Tsum. rewrite <- qsum_sub. ring. Qed.
+
+  Lemma gp_l a b : gp d a b a = 0%Q.
+  Proof. unfold gp. rewrite Nat.eqb_refl. reflexivity. Qed.
+  Lemma gp_r a b : gp d a b b = 0%Q.
+  Proof. unfold gp. rewrite Nat.eqb_refl, orb_true_r. reflexivity. Qed.
+  Lemma gp_o a b k : k <> a -> k <> b -> gp d a b k = (d a k + d b k - d a b)%Q.
+  Proof.
+    intros N1 N2. unfold gp. apply Nat.eqb_neq in N1. apply Nat.eqb_neq in N2. rewrite N1, N2. reflexivity.
+  Qed.
+
+  Lemma sum_split (F : nat -> Q) l a r : Permutation l (a :: r) ->
+    (qsum (map F l) == F a + qsum (map F r))%Q.
+  Proof. intros P. rewrite (qsum_perm _ _ (Permutation_map F P)). cbn [map]. rewrite qsum_cons. reflexivity. Qed.
+
+  (* a cherry inside a hanging clade that is not too big beats (a,b) *)
+  Lemma cherry_beats a b p ep q eq dl0 :
+    In a (leaves U) -> In b (leaves D) -> cherry_at C p ep q eq dl0 ->
+    length (leaves C) + 1 <= length (leaves U) + length (leaves D) ->
+    (Tsum d n a b < Tsum d n p q)%Q.
+  Proof.
+    intros Ia Ib Hch Hsize.
+    unfold S in HP. cbn [positive] in HP. destruct HP as (Pux & Puy & PU & (Pf & Pdl & PC & PD)).
+    destruct (cherry_facts C p ep q eq dl0 Hch NDC PC) as (Ip & Iq & Npq & Pep & Peq & Pd0 & Dp & Dq & Tpq & Hk).
+    destruct (split_one (leaves U) a NDU Ia) as (Ua & PUa & LUa & HUa).
+    destruct (split_one (leaves D) b NDD Ib) as (Db & PDb & LDb & HDb).
+    destruct (split_one (leaves C) p NDC Ip) as (Cp & PCp & LCp & HCp).
+    assert (NDCp : NoDup Cp).
+    { pose proof (Permutation_NoDup PCp NDC) as K. inversion K; assumption. }
+    assert (IqCp : In q Cp).
+    { destruct (Permutation_in _ PCp Iq) as [E|K]; [congruence|exact K]. }
+    destruct (split_one Cp q NDCp IqCp) as (Cr & PCr & LCr & HCr).
+    set (F := fun k => (gp d p q k - gp d a b k)%Q).
+    set (g := (f + dl0)%Q).
+    assert (Pg : (0 < g)%Q) by (unfold g; lra).
+    (* the exceptional leaves *)
+    assert (Nap : a <> p) by (apply UC_neq; assumption).
+    assert (Naq : a <> q) by (apply UC_neq; assumption).
+    assert (Nab : a <> b) by (apply UD_neq; assumption).
+    assert (Npb : p <> b) by (apply CD_neq; assumption).
+    assert (Nqb : q <> b) by (apply CD_neq; assumption).
+    assert (Fa : (F a == 2 * (ux + uy + g + dep U a))%Q).
+    { unfold F. rewrite gp_l, (gp_o p q a Nap Naq).
+      rewrite (d_CU p a Ip Ia), (d_CU q a Iq Ia), (d_CC p q Ip Iq Npq), Tpq, Dp, Dq. unfold g. ring. }
+    assert (Fb : (F b == 2 * (dl + g + dep D b))%Q).
+    { unfold F. rewrite gp_r, (gp_o p q b (fun E => Npb (eq_sym E)) (fun E => Nqb (eq_sym E))).
+      rewrite (d_CD p b Ip Ib), (d_CD q b Iq Ib), (d_CC p q Ip Iq Npq), Tpq, Dp, Dq. unfold g. ring. }
+    assert (Fp : (F p == - (2 * (g + ep)))%Q).
+    { unfold F. rewrite gp_l, (gp_o a b p (fun E => Nap (eq_sym E)) Npb).
+      rewrite (d_UC a p Ia Ip), (d_DC b p Ib Ip), (d_UD a b Ia Ib), Dp. unfold g. ring. }
+    assert (Fq : (F q == - (2 * (g + eq)))%Q).
+    { unfold F. rewrite gp_r, (gp_o a b q (fun E => Naq (eq_sym E)) Nqb).
+      rewrite (d_UC a q Ia Iq), (d_DC b q Ib Iq), (d_UD a b Ia Ib), Dq. unfold g. ring. }
+    (* the other leaves, by region *)
+    assert (BU : forall k, In k Ua -> (2 * g <= F k)%Q).
+    { intros k Hk0. destruct (HUa k Hk0) as [IkU Nka].
+      assert (Nkp : k <> p) by (apply UC_neq; assumption).
+      assert (Nkq : k <> q) by (apply UC_neq; assumption).
+      assert (Nkb : k <> b) by (apply UD_neq; assumption).
+      unfold F. rewrite (gp_o p q k Nkp Nkq), (gp_o a b k Nka Nkb).
+      rewrite (d_CU p k Ip IkU), (d_CU q k Iq IkU), (d_CC p q Ip Iq Npq), Tpq, Dp, Dq.
+      rewrite (d_UU a k Ia IkU (fun E => Nka (eq_sym E))), (d_DU b k Ib IkU), (d_UD a b Ia Ib).
+      pose proof (tdist_le_deps U NDU PU a k Ia IkU). unfold g. lra. }
+    assert (BD : forall k, In k Db -> (2 * g <= F k)%Q).
+    { intros k Hk0. destruct (HDb k Hk0) as [IkD Nkb].
+      assert (Nkp : k <> p) by (intros E; apply (CD_neq p k Ip IkD); congruence).
+      assert (Nkq : k <> q) by (intros E; apply (CD_neq q k Iq IkD); congruence).
+      assert (Nka : k <> a) by (intros E; apply (UD_neq a k Ia IkD); congruence).
+      unfold F. rewrite (gp_o p q k Nkp Nkq), (gp_o a b k Nka Nkb).
+      rewrite (d_CD p k Ip IkD), (d_CD q k Iq IkD), (d_CC p q Ip Iq Npq), Tpq, Dp, Dq.
+      rewrite (d_UD a k Ia IkD), (d_DD b k Ib IkD (fun E => Nkb (eq_sym E))), (d_UD a b Ia Ib).
+      pose proof (tdist_le_deps D NDD PD b k Ib IkD). unfold g. lra. }
+    assert (BC : forall k, In k Cr -> (- (2 * g) <= F k)%Q).
+    { intros k Hk0. destruct (HCr k Hk0) as [IkCp Nkq]. destruct (HCp k IkCp) as [IkC Nkp].
+      assert (Nka : k <> a) by (intros E; apply (UC_neq a k Ia IkC); congruence).
+      assert (Nkb : k <> b) by (apply CD_neq; assumption).
+      unfold F. rewrite (gp_o p q k Nkp Nkq), (gp_o a b k Nka Nkb).
+      rewrite (d_CC p k Ip IkC (fun E => Nkp (eq_sym E))), (d_CC q k Iq IkC (fun E => Nkq (eq_sym E))),
+              (d_CC p q Ip Iq Npq), Tpq.
+      rewrite (d_UC a k Ia IkC), (d_DC b k Ib IkC), (d_UD a b Ia Ib).
+      pose proof (Hk k IkC Nkp Nkq). unfold g. lra. }
+    (* putting the sums together *)
+    pose proof (qsum_ge F (2 * g)%Q Ua BU) as SU.
+    pose proof (qsum_ge F (2 * g)%Q Db BD) as SD.
+    pose proof (qsum_ge F (- (2 * g))%Q Cr BC) as SC.
+    pose proof (sum_split F (leaves U) a Ua PUa) as EU.
+    pose proof (sum_split F (leaves D) b Db PDb) as ED.
+    pose proof (sum_split F (leaves C) p Cp PCp) as EC1.
+    pose proof (sum_split F Cp q Cr PCr) as EC2.
+    pose proof (Tsum_diff a b p q) as TD. fold F in TD. rewrite (sum_regions F) in TD.
+    assert (Hcnt : length Cr + 1 <= length Ua + length Db) by lia.
+    pose proof (scale_count (2 * g)%Q (length Ua) (length Db) (length Cr) ltac:(lra) Hcnt) as SCnt.
+    rewrite (d_CC p q Ip Iq Npq), Tpq, (d_UD a b Ia Ib) in TD.
+    set (sU := qsum (map F Ua)) in *. set (sD := qsum (map F Db)) in *. set (sC := qsum (map F Cr)) in *.
+    set (iU := inject_Z (Z.of_nat (length Ua))) in *. set (iD := inject_Z (Z.of_nat (length Db))) in *.
+    set (iC := inject_Z (Z.of_nat (length Cr))) in *.
+    assert (SC' : (- (2 * g * iC) <= sC)%Q) by lra.
+    lra.
+  Qed.
+
+  (* a single leaf hanging next to a, with more than b below: (a,k0) beats (a,b) *)
+  Lemma leaf_beats a b k0 :
+    In a (leaves U) -> In b (leaves D) -> C = Leaf k0 -> 2 <= length (leaves D) ->
+    (Tsum d n a b < Tsum d n a k0)%Q.
+  Proof.
+    intros Ia Ib EC Hsize.
+    unfold S in HP. cbn [positive] in HP. destruct HP as (Pux & Puy & PU & (Pf & Pdl & PC & PD)).
+    assert (Ik0 : In k0 (leaves C)) by (rewrite EC; left; reflexivity).
+    assert (Dk0 : dep C k0 = 0%Q) by (rewrite EC; reflexivity).
+    destruct (split_one (leaves U) a NDU Ia) as (Ua & PUa & LUa & HUa).
+    destruct (split_one (leaves D) b NDD Ib) as (Db & PDb & LDb & HDb).
+    set (F := fun k => (gp d a k0 k - gp d a b k)%Q).
+    assert (Nak : a <> k0) by (apply UC_neq; assumption).
+    assert (Nab : a <> b) by (apply UD_neq; assumption).
+    assert (Nkb : k0 <> b) by (apply CD_neq; assumption).
+    assert (Fa : (F a == 0)%Q) by (unfold F; rewrite !gp_l; ring).
+    assert (Fk : (F k0 == - (2 * f))%Q).
+    { unfold F. rewrite gp_r, (gp_o a b k0 (fun E => Nak (eq_sym E)) Nkb).
+      rewrite (d_UC a k0 Ia Ik0), (d_DC b k0 Ib Ik0), (d_UD a b Ia Ib), Dk0. ring. }
+    assert (Fb : (F b == 2 * (dl + dep D b))%Q).
+    { unfold F. rewrite gp_r, (gp_o a k0 b (fun E => Nab (eq_sym E)) (fun E => Nkb (eq_sym E))).
+      rewrite (d_UD a b Ia Ib), (d_CD k0 b Ik0 Ib), (d_UC a k0 Ia Ik0), Dk0. ring. }
+    assert (BU : forall k, In k Ua -> (0 <= F k)%Q).
+    { intros k Hk0. destruct (HUa k Hk0) as [IkU Nka].
+      assert (Nkk : k <> k0) by (apply UC_neq; assumption).
+      assert (Nkb' : k <> b) by (apply UD_neq; assumption).
+      unfold F. rewrite (gp_o a k0 k Nka Nkk), (gp_o a b k Nka Nkb').
+      rewrite (d_UU a k Ia IkU (fun E => Nka (eq_sym E))), (d_CU k0 k Ik0 IkU), (d_UC a k0 Ia Ik0),
+              (d_DU b k Ib IkU), (d_UD a b Ia Ib), Dk0. lra. }
+    assert (BD : forall k, In k Db -> (2 * dl <= F k)%Q).
+    { intros k Hk0. destruct (HDb k Hk0) as [IkD Nkb'].
+      assert (Nkk : k <> k0) by (intros E; apply (CD_neq k0 k Ik0 IkD); congruence).
+      assert (Nka : k <> a) by (intros E; apply (UD_neq a k Ia IkD); congruence).
+      unfold F. rewrite (gp_o a k0 k Nka Nkk), (gp_o a b k Nka Nkb').
+      rewrite (d_UD a k Ia IkD), (d_CD k0 k Ik0 IkD), (d_UC a k0 Ia Ik0),
+              (d_DD b k Ib IkD (fun E => Nkb' (eq_sym E))), (d_UD a b Ia Ib), Dk0.
+      pose proof (tdist_le_deps D NDD PD b k Ib IkD). lra. }
+    pose proof (qsum_ge F 0%Q Ua BU) as SU.
+    pose proof (qsum_ge F (2 * dl)%Q Db BD) as SD.
+    pose proof (sum_split F (leaves U) a Ua PUa) as EU.
+    pose proof (sum_split F (leaves D) b Db PDb) as ED.
+    pose proof (Tsum_diff a b a k0) as TD. fold F in TD. rewrite (sum_regions F) in TD.
+    assert (ECs : (qsum (map F (leaves C)) == F k0)%Q).
+    { rewrite EC. cbn [leaves map]. rewrite qsum_cons. change (qsum []) with 0%Q. ring. }
+    assert (Hcnt : 0 + 1 <= length Db + 0) by lia.
+    pose proof (scale_count (2 * dl)%Q (length Db) 0 0 ltac:(lra) Hcnt) as SCnt.
+    change (inject_Z (Z.of_nat 0)) with 0%Q in SCnt.
+    rewrite (d_UC a k0 Ia Ik0), Dk0, (d_UD a b Ia Ib) in TD.
+    set (sU := qsum (map F Ua)) in *. set (sD := qsum (map F Db)) in *.
+    set (iU := inject_Z (Z.of_nat (length Ua))) in *. set (iD := inject_Z (Z.of_nat (length Db))) in *.
+    lra.
+  Qed.
+End Shape.
+
+(* ------------------------------------------------------------------ *)
+(* Part 3: a pair maximising Tsum is a cherry *)
+Definition tmax (d : nat -> nat -> Q) (n a b : nat) : Prop :=
+  forall c e, c < n -> e < n -> c <> e -> (Tsum d n c e <= Tsum d n a b)%Q.
+
+Section ShapeMax.
+  Variables (U C D : tree) (ux uy f dl : Q).
+  Let S := Node U ux (Node C f D dl) uy.
+  Variable d : nat -> nat -> Q.
+  Variable n : nat.
+  Hypothesis ND : NoDup (leaves S).
+  Hypothesis HP : positive S.
+  Hypothesis Hd : metric_of d S.
+  Hypothesis Hn : Permutation (leaves S) (seq 0 n).
+  Variables a b : nat.
+  Hypothesis Ia : In a (leaves U).
+  Hypothesis Ib : In b (leaves D).
+  Hypothesis Hmax : tmax d n a b.
+
+  Lemma leaf_lt x : In x (leaves S) -> x < n.
+  Proof. intros H. apply (Permutation_in _ Hn) in H. apply in_seq in H. lia. Qed.
+
+  Lemma shape_no_leaf k0 : C = Leaf k0 -> 2 <= length (leaves D) -> False.
+  Proof.
+    intros EC L.
+    pose proof (leaf_beats U C D ux uy f dl d n ND HP Hd Hn a b k0 Ia Ib EC L) as H.
+    assert (Ik : In k0 (leaves S)).
+    { unfold S. cbn [leaves]. rewrite EC. apply in_or_app. right. left. reflexivity. }
+    assert (IaS : In a (leaves S)) by (unfold S; cbn [leaves]; apply in_or_app; left; exact Ia).
+    assert (N : a <> k0).
+    { intros ->. unfold S in ND. cbn [leaves] in ND. rewrite EC in ND.
+      apply (NoDup_app_disj _ _ k0 ND Ia). left. reflexivity. }
+    pose proof (Hmax a k0 (leaf_lt a IaS) (leaf_lt k0 Ik) N). lra.
+  Qed.
+
+  Lemma shape_no_cherry : 2 <= length (leaves C) ->
+    length (leaves C) + 1 <= length (leaves U) + length (leaves D) -> False.
+  Proof.
+    intros L2 Lsz. destruct (cherry_exists C L2) as (p & ep & q & eq & dl0 & Hch).
+    pose proof (cherry_beats U C D ux uy f dl d n ND HP Hd Hn a b p ep q eq dl0 Ia Ib Hch Lsz) as H.
+    unfold S in HP. cbn [positive] in HP. destruct HP as (_ & _ & _ & (_ & _ & PC & _)).
+    assert (NDC' : NoDup (leaves C)).
+    { unfold S in ND. cbn [leaves] in ND. exact (NoDup_app_l _ _ (NoDup_app_r _ _ ND)). }
+    destruct (cherry_facts C p ep q eq dl0 Hch NDC' PC) as (Ip & Iq & Npq & _).
+    assert (IpS : In p (leaves S)) by (unfold S; cbn [leaves]; apply in_or_app; right; apply in_or_app; left; exact Ip).
+    assert (IqS : In q (leaves S)) by (unfold S; cbn [leaves]; apply in_or_app; right; apply in_or_app; left; exact Iq).
+    pose proof (Hmax p q (leaf_lt p IpS) (leaf_lt q IqS) Npq). lra.
+  Qed.
+End ShapeMax.
+
+Lemma Tsum_sym d n a b : (d a b == d b a)%Q -> (Tsum d n a b == Tsum d n b a)%Q.
+Proof.
+  intros E. unfold Tsum. rewrite E. apply Qplus_comp; [reflexivity|].
+  apply qsum_map_ext. intros k _. unfold gp. rewrite (orb_comm (Nat.eqb k a)).
+  destruct (Nat.eqb k b || Nat.eqb k a); [reflexivity|]. rewrite E. ring.
+Qed.
+
+Lemma tmax_sym d n a b : (d a b == d b a)%Q -> tmax d n a b -> tmax d n b a.
+Proof. intros E H c e Hc He N. rewrite <- (Tsum_sym d n a b E). exact (H c e Hc He N). Qed.
+
+Lemma single_leaf t : length (leaves t) = 1 -> exists z, t = Leaf z.
+Proof.
+  destruct t as [z|l bl r br]; [exists z; reflexivity|]. cbn [leaves]. rewrite app_length.
+  pose proof (leaves_nonempty l). pose proof (leaves_nonempty r). lia.
+Qed.
+
+(* from a node with three neighbours U (holding a and something else), C (smaller than U), D (holding b) *)
+Lemma core2 U C D ux uy f dl d n a b :
+  let S := Node U ux (Node C f D dl) uy in
+  NoDup (leaves S) -> positive S -> metric_of d S -> Permutation (leaves S) (seq 0 n) ->
+  In a (leaves U) -> In b (leaves D) -> tmax d n a b ->
+  2 <= length (leaves U) -> length (leaves C) < length (leaves U) -> False.
+Proof.
+  intros S ND HP Hd Hn Ia Ib Hmax LU LC.
+  destruct (le_lt_dec 2 (length (leaves C))) as [L2|L1].
+  - apply (shape_no_cherry U C D ux uy f dl d n ND HP Hd Hn a b Ia Ib Hmax L2). lia.
+  - destruct (single_leaf C) as [k0 EC]; [pose proof (leaves_nonempty C); lia|].
+    destruct (le_lt_dec 2 (length (leaves D))) as [LD|LD].
+    + exact (shape_no_leaf U C D ux uy f dl d n ND HP Hd Hn a b Ia Ib Hmax k0 EC LD).
+    + (* D is the leaf b: look from b's side *)
+      destruct (single_leaf D) as [b' ED]; [pose proof (leaves_nonempty D); lia|].
+      assert (Eb : b' = b) by (rewrite ED in Ib; destruct Ib as [E|[]]; exact E). subst b'.
+      unfold S in HP. cbn [positive] in HP. destruct HP as (Pux & Puy & PU & (Pf & Pdl & PC & PD)).
+      destruct (half_pos dl Pdl) as [Ph Eh].
+      set (S3 := Node D (dl / 2) (Node C f U (uy + ux)) (dl / 2)).
+      assert (ND3 : NoDup (leaves C ++ leaves D ++ leaves U)).
+      { eapply Permutation_NoDup; [|exact ND]. unfold S. cbn [leaves].
+        eapply perm_trans; [apply Permutation_app_comm|]. rewrite <- app_assoc. apply Permutation_refl. }
+      assert (E3 : teq S S3).
+      { eapply teq_trans; [apply teq_swap; exact ND|].
+        apply (teq_rotate2_gen C f D dl uy U ux (dl / 2) (dl / 2) (uy + ux)); [exact Eh|reflexivity|exact ND3]. }
+      assert (IaS : In a (leaves S)) by (unfold S; cbn [leaves]; apply in_or_app; left; exact Ia).
+      assert (IbS : In b (leaves S)) by (unfold S; cbn [leaves]; apply in_or_app; right; apply in_or_app; right; exact Ib).
+      assert (Nab : a <> b).
+      { intros ->. unfold S in ND. cbn [leaves] in ND. apply (NoDup_app_disj _ _ b ND Ia). apply in_or_app. right. exact Ib. }
+      assert (Esym : (d a b == d b a)%Q).
+      { rewrite (Hd a b IaS IbS Nab), (Hd b a IbS IaS (fun E => Nab (eq_sym E))). apply tdist_sym; assumption. }
+      apply (shape_no_leaf D C U (dl / 2) (dl / 2) f (uy + ux) d n) with (a := b) (b := a) (k0 := k0).
+      * exact (teq_nodup _ _ E3 ND).
+      * cbn [positive]. repeat split; try assumption; lra.
+      * exact (metric_of_teq d S S3 E3 Hd).
+      * eapply perm_trans; [symmetry; exact (proj1 E3)|exact Hn].
+      * exact Ib.
+      * exact Ia.
+      * exact (tmax_sym d n a b Esym Hmax).
+      * exact EC.
+      * exact LU.
+Qed.
+
+(* the tree re-rooted at a, with b in the second grandchild *)
+Lemma core1 A B x y f lam d n a b :
+  let T1 := Node (Leaf a) x (Node A f B lam) y in
+  NoDup (leaves T1) -> positive T1 -> metric_of d T1 -> Permutation (leaves T1) (seq 0 n) ->
+  In b (leaves B) -> tmax d n a b ->
+  exists Z ez, B = Leaf b /\ Z = A /\ ez = f.
+Proof.
+  intros T1 ND HP Hd Hn Ib Hmax.
+  destruct B as [b'|B1 c1 B2 c2].
+  - destruct Ib as [->|[]]. exists A, f. repeat split.
+  - exfalso.
+    assert (HP' := HP). unfold T1 in HP'. cbn [positive] in HP'.
+    destruct HP' as (Px & Py & _ & (Pf & Plam & PA & (Pc1 & Pc2 & PB1 & PB2))).
+    pose proof (leaves_nonempty B1) as N1. pose proof (leaves_nonempty B2) as N2.
+    pose proof (leaves_nonempty A) as NA.
+    set (B := Node B1 c1 B2 c2) in *.
+    assert (LB : length (leaves B) = length (leaves B1) + length (leaves B2)) by (unfold B; cbn [leaves]; apply app_length).
+    destruct (le_lt_dec (length (leaves A)) (length (leaves B))) as [Le|Lt].
+    + (* the clade next to a is the small one *)
+      destruct (le_lt_dec 2 (length (leaves A))) as [L2|L1].
+      * apply (shape_no_cherry (Leaf a) A B x y f lam d n ND HP Hd Hn a b (or_introl eq_refl) Ib Hmax L2).
+        cbn [leaves length]. lia.
+      * destruct (single_leaf A) as [k0 EA]; [lia|].
+        apply (shape_no_leaf (Leaf a) A B x y f lam d n ND HP Hd Hn a b (or_introl eq_refl) Ib Hmax k0 EA). lia.
+    + (* the clade next to a is big: look from the next node on the path *)
+      destruct (half_pos lam Plam) as [Ph Eh].
+      set (U' := Node (Leaf a) (x + y) A f).
+      set (S2 := Node U' (lam / 2) B (lam / 2)).
+      assert (NDl : NoDup (leaves (Leaf a) ++ leaves A ++ leaves B)) by exact ND.
+      assert (E2 : teq T1 S2).
+      { apply teq_sym. apply (teq_rotate_gen (Leaf a) (x + y) A f (lam / 2) B (lam / 2) x y lam);
+          [reflexivity|symmetry; exact Eh|exact NDl]. }
+      pose proof (teq_nodup _ _ E2 ND) as ND2.
+      assert (HP2 : positive S2).
+      { unfold S2, U', B. cbn [positive]. repeat split; try assumption; lra. }
+      pose proof (metric_of_teq d T1 S2 E2 Hd) as Hd2.
+      assert (Hn2 : Permutation (leaves S2) (seq 0 n)) by (eapply perm_trans; [symmetry; exact (proj1 E2)|exact Hn]).
+      assert (IaU : In a (leaves U')) by (unfold U'; cbn [leaves]; left; reflexivity).
+      assert (LU : length (leaves U') = 1 + length (leaves A)) by (unfold U'; cbn [leaves length]; reflexivity).
+      unfold B in Ib. cbn [leaves] in Ib. apply in_app_or in Ib. destruct Ib as [Ib|Ib].
+      * (* b in B1: swap the two children *)
+        assert (ND3 : NoDup (leaves U' ++ leaves B1 ++ leaves B2)) by exact ND2.
+        pose proof (teq_swap_inner U' (lam / 2) B1 c1 B2 c2 (lam / 2) ND3) as E3. fold B in E3. fold S2 in E3.
+        apply (core2 U' B2 B1 (lam / 2) (lam / 2) c2 c1 d n a b).
+        -- exact (teq_nodup _ _ E3 ND2).
+        -- unfold U'. cbn [positive]. repeat split; try assumption; lra.
+        -- exact (metric_of_teq d _ _ E3 Hd2).
+        -- eapply perm_trans; [symmetry; exact (proj1 E3)|exact Hn2].
+        -- exact IaU.
+        -- exact Ib.
+        -- exact Hmax.
+        -- lia.
+        -- lia.
+      * apply (core2 U' B1 B2 (lam / 2) (lam / 2) c1 c2 d n a b).
+        -- exact ND2.
+        -- exact HP2.
+        -- exact Hd2.
+        -- exact Hn2.
+        -- exact IaU.
+        -- exact Ib.
+        -- exact Hmax.
+        -- lia.
+        -- lia.
+Qed.
+
+(* The cherry-picking lemma on trees: a pair maximising Tsum (= minimising the
+   Q-criterion) is a cherry: the tree can be re-rooted so that a hangs off the
+   root and b is a child of a's neighbour. *)
+Theorem max_pair_is_cherry_iso T d n a b :
+  NoDup (leaves T) -> positive T -> metric_of d T -> Permutation (leaves T) (seq 0 n) ->
+  3 <= n -> a < n -> b < n -> a <> b -> tmax d n a b ->
+  exists x y eb Z ez,
+    teq T (Node (Leaf a) x (Node (Leaf b) eb Z ez) y) /\
+    positive (Node (Leaf a) x (Node (Leaf b) eb Z ez) y) /\
+    tiso T (Node (Leaf a) x (Node (Leaf b) eb Z ez) y).
+Proof.
+  intros ND HP Hd Hn L3 Ha Hb Nab Hmax.
+  assert (Ia : In a (leaves T)) by (apply (Permutation_in _ (Permutation_sym Hn)); apply in_seq; lia).
+  assert (LT : length (leaves T) = n) by (rewrite (Permutation_length Hn); apply seq_length).
+  destruct (reroot_leaf T a ND HP Ia ltac:(lia)) as (x & R & y & E1 & P1 & I1).
+  pose proof (teq_nodup _ _ E1 ND) as ND1.
+  pose proof (metric_of_teq d _ _ E1 Hd) as Hd1.
+  assert (Hn1 : Permutation (leaves (Node (Leaf a) x R y)) (seq 0 n)) by (eapply perm_trans; [symmetry; exact (proj1 E1)|exact Hn]).
+  assert (LR : length (leaves R) = n - 1).
+  { pose proof (Permutation_length Hn1) as K. rewrite seq_length in K. cbn [leaves length app] in K. lia. }
+  destruct R as [z|A f B lam]; [cbn in LR; lia|].
+  assert (Ib : In b (leaves A ++ leaves B)).
+  { assert (K : In b (leaves (Node (Leaf a) x (Node A f B lam) y))) by (apply (Permutation_in _ (Permutation_sym Hn1)); apply in_seq; lia).
+    cbn [leaves app] in K. destruct K as [K|K]; [congruence|exact K]. }
+  apply in_app_or in Ib. destruct Ib as [Ib|Ib].
+  - (* b in A: swap the grandchildren *)
+    assert (NDl : NoDup (leaves (Leaf a) ++ leaves A ++ leaves B)) by exact ND1.
+    pose proof (teq_swap_inner (Leaf a) x A f B lam y NDl) as E2.
+    pose proof (teq_nodup _ _ E2 ND1) as ND2.
+    assert (P2 : positive (Node (Leaf a) x (Node B lam A f) y)) by (cbn [positive] in *; tauto).
+    destruct (core1 B A x y lam f d n a b ND2 P2 (metric_of_teq d _ _ E2 Hd1)) as (Z & ez & EA & _ & _).
+    + eapply perm_trans; [symmetry; exact (proj1 E2)|exact Hn1].
+    + exact Ib.
+    + exact Hmax.
+    + subst A. exists x, y, f, B, lam. split; [exact E1|]. split; [exact P1|exact I1].
+  - destruct (core1 A B x y f lam d n a b ND1 P1 Hd1 Hn1 Ib Hmax) as (Z & ez & EB & _ & _).
+    subst B. assert (NDl : NoDup (leaves (Leaf a) ++ leaves A ++ leaves (Leaf b))) by exact ND1.
+    pose proof (teq_swap_inner (Leaf a) x A f (Leaf b) lam y NDl) as E2.
+    exists x, y, lam, A, f. split; [exact (teq_trans _ _ _ E1 E2)|]. split; [cbn [positive] in *; tauto|].
+    eapply iso_trans; [exact I1|apply iso_swap_inner].
+Qed.
+
+Theorem max_pair_is_cherry T d n a b :
+  NoDup (leaves T) -> positive T -> metric_of d T -> Permutation (leaves T) (seq 0 n) ->
+  3 <= n -> a < n -> b < n -> a <> b -> tmax d n a b ->
+  exists x y eb Z ez,
+    teq T (Node (Leaf a) x (Node (Leaf b) eb Z ez) y) /\
+    positive (Node (Leaf a) x (Node (Leaf b) eb Z ez) y).
+Proof.
+  intros ND HP Hd Hn L3 Ha Hb Nab Hmax.
+  destruct (max_pair_is_cherry_iso T d n a b ND HP Hd Hn L3 Ha Hb Nab Hmax) as (x & y & eb & Z & ez & H1 & H2 & _).
+  exists x, y, eb, Z, ez. split; assumption.
+Qed.
